@@ -337,6 +337,20 @@ def show_tree(t, counter):
 
 def boolean_cases(ctx: Ctx, h: Harness, thorough: bool):
     fi = ctx.prog.func(f"{CMP}::BooleanExpression.evaluate")
+    # a group is decided by its first deciding member, in document order: a later member that names a parameter the packet does
+    # not (yet) hold is not consulted (a disjunction that already holds, a conjunction that already fails)
+    cA = "Condition('A', '==', right_value='1', right_use_calibrated_value=False)"
+    cX = "Condition('ABSENT', '>', right_value='5', right_use_calibrated_value=False)"
+    for label, src, a, want in (("A or ABSENT with A true", f"BooleanExpression(Ored([{cA}, {cX}], []))", 1, True),
+                                ("A and ABSENT with A false", f"BooleanExpression(Anded([{cA}, {cX}], []))", 0, False),
+                                ("A or (ABSENT and A) with A true", f"BooleanExpression(Ored([{cA}], [Anded([{cX}, {cA}], [])]))", 1, True)):
+        site = f"{fi.key}::short-circuit::{label}"
+        try:
+            k, got = h.outcome(f"{src}.evaluate(pkt)", CMP, pkt=h.packet(b"", {"A": h.val("Int", a, a)}))
+            ctx.decide(k == "ok" and got is want, "R6.bool", site, "", f"{label}: {'raises ' + str(got) if k != 'ok' else repr(got)}; the expression is "
+                       f"{want} whatever the absent parameter would be, and the library evaluates members in order", where=where(fi, fi.node))
+        except Unsupported as e:
+            ctx.unknown("R6.bool", site, str(e))
     ts = trees(2, 2)
     # depth 3: one nested chain per shape plus all depth-3 trees with a single nested group
     d2 = trees(2, 1)
